@@ -1075,7 +1075,7 @@ def run(ctx):
                 ctx.count('outcome.not_judged_downstream_of_disagreement')
                 state['tainted'].update(writes)
                 track(step)
-                warm.event_log.append(k)
+                warm.event_log.append((k, step.get('db')))
                 state['ref_off'] = True                       # the mirror is not maintained for unjudged steps
                 if k == 'commit': state['ref_off_committed'] = True
                 return
@@ -1111,7 +1111,7 @@ def run(ctx):
             if k == 'chain' and step.get('post') is not None and (r == want or sig not in warm.last_exec):
                 warm.last_exec[sig] = (len(warm.event_log), r)
             if k == 'strq' and (r == want or sig not in warm.last_exec): warm.last_exec[sig] = (len(warm.event_log), r)
-            warm.event_log.append(k)
+            warm.event_log.append((k, step.get('db')))
             if k in ('set', 'create', 'delete', 'bulk_delete', 'raw_dml'):
                 if r[0] == 'ok': mirror_apply(step, state['mirror'])
                 else: state['ref_off'] = True         # a failed modification: the mirror no longer tracks the session
@@ -1174,14 +1174,24 @@ def run(ctx):
                         and unordered(got[1]) == unordered(want[1]) \
                         and any(norm(list(warm.results[ri][0])) == got[1] for ri in warm.mutated_results if ri in warm.results):
                     report_finding(ctx, F_QR, w); return w
-                # (b) the answer is the one this query gave at its previous execution in this session, and between then
-                #     and now a raw DML statement (db.execute) ran but no ORM-level modification, flush or commit
-                prev = warm.last_exec.get(sig)
-                if prev is not None and prev[1] == got:
-                    between = warm.event_log[prev[0] + 1:]
-                    if 'raw_dml' in between and not any(e in ('set', 'create', 'delete', 'bulk_delete', 'commit') for e in between):
-                        w['events_since_previous_execution'] = between
+            if k in SIDE_EFFECT_FREE and restored_by == ['query_results'] and w.get('rerun_unchanged_caches') == got:
+                # (b) the session result cache (and nothing else) is stale, stably, and on this Database a raw DML
+                #     statement (db.execute) ran in this session with no ORM-level modification or commit after it (those
+                #     discard cached results; events of the other Database do not touch this session cache)
+                mine = [e for e, d in warm.event_log if d == step.get('db') or e == 'commit']
+                if 'raw_dml' in mine:
+                    after = mine[len(mine) - mine[::-1].index('raw_dml'):]
+                    if not any(e in ('set', 'create', 'delete', 'bulk_delete', 'commit') for e in after):
+                        w['events_after_last_raw_dml'] = after
                         report_finding(ctx, F_RAWDML, w); return w
+            if k == 'qr_read' and got[0] == 'ok' and want[0] == 'ok' and step.get('res') in warm.results:
+                # two QueryResult objects of the same query share ONE list (the cached one): sorting/reversing one of them
+                # changed this one.  Identified by identity of the underlying lists and by the answer being a permutation.
+                mine_items = getattr(warm.results[step['res']][0], '_items', None)
+                if mine_items is not None and unordered(got[1][0]) == unordered(want[1][0]) and any(
+                        ri != step['res'] and ri in warm.results and getattr(warm.results[ri][0], '_items', None) is mine_items
+                        for ri in warm.mutated_results):
+                    report_finding(ctx, F_QR, w); return w
             ctx.violation(w, mechanism='warm-differs-from-cold' + ('-stale-' + '+'.join(restored_by) if restored_by else ''))
             return w
 
